@@ -13,7 +13,7 @@
 EXTENDS Integers, FiniteSets, Sequences, TLC
 
 CONSTANTS Slots, Enforce
-G(p, clause) == p \notin Enforce \/ clause
+G(p, clause) == IF p \in Enforce THEN clause ELSE TRUE   \* (IF, not \/: TLC would split a disjunction into two successors per guard)
 
 VARIABLE slot      \* slot[s]: the last projection of slot s
 svars == <<slot>>
